@@ -121,7 +121,9 @@ def path_str(p):
 
 NAMES = ["a", "b", "ab", "a.b", "a-b", "-x", " s", ".h", "é", "éa", "z", "A", "~t", "b0", "d", "e", "0",
          # characters that need escaping in JSON, glob metacharacters, a control byte, a non-BMP character
-         'q"t', "b\\s", "n\nl", "[x]*", "\x01c", "\U0001F600"]
+         'q"t', "b\\s", "n\nl", "[x]*", "\x01c", "\U0001F600",
+         # the name of a cache-directory tag (only one with the 43-byte signature as content makes a directory a cache)
+         "CACHEDIR.TAG"]
 MTIMES = [(1600000000, 0), (1600000001, 123456789), (1600000002, 999999999), (0, 0), (0, 1),
           (-1, 0), (-2, 500000000), (-86400, 250000000), (2000000000, 5), (1, 0),
           # beyond 2^31 and 2^32 seconds, beyond what fits in 64-bit nanoseconds (year 2262), near the file system's limit
@@ -420,6 +422,14 @@ def odd_source(s):
                     hit = True
     if hit:
         s["tags"] = list(s.get("tags", [])) + ["pipes-in-source"]
+    return s
+
+
+def odd_umask(s):
+    """One scenario in five (chosen by its id) runs under a process umask other than 022."""
+    h = int(hashlib.sha1(("umask" + s["id"]).encode()).hexdigest(), 16)
+    if h % 5 == 0 and "umask" not in s:
+        s["umask"] = [0o077, 0o027, 0o002, 0o000, 0o777, 0o137][(h // 5) % 6]
     return s
 
 
